@@ -20,7 +20,7 @@ EXHAUSTIVE = {"quick": ["all strings len<=6 over AC in one call, k=1..7", "all s
               "thorough": ["all strings len<=8 over AC, k=1..4", "all strings len<=4 over ACDW, k=1..4",
                            "all strings len<=6 over AC, k=1..7", "all strings len<=4 over ACD, k=1..5",
                            "all strings len<=3 over ACD: every pair as a 2-element input, k=1..4"]}
-REQUIRE = {"inputs_with_indel_neighbour_pairs": 5, "inputs_with_d0_pairs": 5, "inputs_shorter-than-k": 3,
+REQUIRE = {"self_after_cross_cases": 9, "inputs_with_indel_neighbour_pairs": 5, "inputs_with_d0_pairs": 5, "inputs_shorter-than-k": 3,
            "inputs_empty-string": 3, "inputs_k>=2": 5, "inputs_non-amino": 2, "inputs_single": 1,
            "triplets_compared": 1000}
 SHARDS = {"quick": 6, "thorough": 16}
@@ -55,6 +55,26 @@ def k_self(ctx, seqs, k):
         S.expect_triplets(ctx, out, expected, "symdel", "self-explicit-defaults")
 
 
+def k_self_after_cross(ctx, refs, queries, seqs, k):
+    """a one-collection search that follows two-collection searches (same max_edits) whose queries reappear in it:
+    nothing the earlier calls computed for those sequences may leak into the later answer"""
+    import pyrepseq
+    import pyrepseq.nn as nn
+    ctx.count("self_after_cross_cases")
+    ctx.call(pyrepseq.symdel, list(refs), max_edits=k, seqs2=list(queries))
+    ctx.call(pyrepseq.nearest_neighbor, list(refs), max_edits=k, seqs2=list(queries))
+    db = ctx.call(nn.SymdelDB, list(refs), k)
+    if db.ok:
+        ctx.call(db.value.lookup, list(queries))
+    expected = O.neigh_self(seqs, k)
+    if expected:
+        ctx.nontriv(["after-cross", refs, queries, seqs, k])
+    ctx.sample("self_after_cross", {"refs": refs[:6], "queries": queries[:6], "seqs": seqs[:8], "k": k})
+    for name in ("nearest_neighbor", "symdel"):
+        out = ctx.call(getattr(pyrepseq, name), list(seqs), max_edits=k)
+        S.expect_triplets(ctx, out, expected, name, "self-after-cross")
+
+
 def k_big(ctx, n, np_seed, plant):
     """very large collections at max_edits=1 (size-dependent paths); oracle: wildcard/deletion hashing confirmed by the DP"""
     import pyrepseq
@@ -79,7 +99,7 @@ def k_big(ctx, n, np_seed, plant):
     S.expect_triplets(ctx, out, expected, "nearest_neighbor", f"self-large-input")
 
 
-KINDS = {"self": k_self, "big": k_big}
+KINDS = {"self": k_self, "big": k_big, "self_after_cross": k_self_after_cross}
 
 
 def generate(tier, seed):
@@ -116,6 +136,15 @@ def generate(tier, seed):
              base[:600] + base[601:], ("A" if base[0] != "A" else "C") + base[1:], base[:1025], base[:1024] + ("A" if base[1024] != "A" else "C")]
     yield "self", {"seqs": longs, "k": 1}, True
     yield "big", {"n": 4000, "np_seed": seed + 1, "plant": 300}, True
+    # one-collection searches that follow two-collection searches with overlapping sequences and the same max_edits
+    fam = ["CASSIRSSYEQYF", "CASSIRSYEQYF", "CASSIRSSYEQYY", "CASSLAQETQYF", "CASSLAQETQYY", "CASLAQETQYF", "CAWSF", "CAWF", "CAF"]
+    for k in (1, 2, 3):
+        yield "self_after_cross", {"refs": ["CASSF", "CATSF", "CAWSVGQYF"], "queries": fam[::2], "seqs": fam, "k": k}, True
+        yield "self_after_cross", {"refs": fam[:3], "queries": fam, "seqs": list(reversed(fam)), "k": k}, True
+        yield "self_after_cross", {"refs": ["W"], "queries": G.universe("AC", 4), "seqs": G.universe("AC", 4), "k": k}, True
+    for i in range(200 if thorough else 20):
+        rep = G.repertoire(rng, rng.randint(12, 50))
+        yield "self_after_cross", {"refs": G.repertoire(rng, rng.randint(1, 20)), "queries": rng.sample(rep, len(rep) // 2), "seqs": rep, "k": rng.choice([1, 2, 3])}, i < 4
     if thorough:
         yield "big", {"n": 66000, "np_seed": seed + 2, "plant": 3000}, True
         yield "big", {"n": 20000, "np_seed": seed + 3, "plant": 2000}, True
